@@ -98,7 +98,15 @@ def _merge_table(R, tf):
                         d2 = [x for j, x in tf.stmts() if x["k"] == "assign" and x["pl"]["l"] == o2["pl"]["l"] and not x["pl"]["p"] and x["rv"]["k"] == "aggr"]
                         if len(d2) == 1:
                             sub = d2[0]["rv"].get("variant")
-                out.add((var, sub if var in ("Keyword", "Operator") else None))
+                        elif var in ("Keyword", "Operator"):
+                            # the payload chosen by a helper (`Some(compound) => Token::Keyword(compound)`): every value it can be
+                            subs = sub_variants(o2, 8, frozenset())
+                            if subs:
+                                for sv in subs:
+                                    out.add((var, sv))
+                                sub = "*"
+                if sub != "*":
+                    out.add((var, sub if var in ("Keyword", "Operator") else None))
             elif rv["k"] == "aggr" and rv.get("variant") in ("Some", "Ok") and len(rv["ops"]) == 1:
                 sub_ = token_kinds(rv["ops"][0], depth - 1, seen)
                 if sub_ is None:
@@ -111,6 +119,50 @@ def _merge_table(R, tf):
                 if sub_ is None:
                     return None
                 out |= sub_
+            else:
+                return None
+        return out
+
+    def sub_variants(op, depth, seen):
+        """the unit variants a Keyword / Operator local can hold: through moves, and through `Some(x)` built in one place and taken apart
+        in another; None when something else defines it"""
+        if depth == 0 or op.get("k") not in ("copy", "move"):
+            return None
+        pl = op["pl"]
+        l = pl["l"]
+        sel = [e for e in pl["p"] if isinstance(e, dict)]
+        if (l, len(sel)) in seen:
+            return set()
+        seen = seen | {(l, len(sel))}
+        defs = [d for j, d in tf.stmts() if d["k"] == "assign" and d["pl"]["l"] == l and not d["pl"]["p"]]
+        if not defs or [c for c in tf.calls if c.dest is not None and c.dest["l"] == l and not c.dest["p"]
+                        and not short(c.name).endswith("::from_residual")]:
+            return None
+        out = set()
+        for d in defs:
+            rv = d["rv"]
+            if rv["k"] == "aggr" and not sel and re.search(r"tokenizer::(Keyword|Operator)$", rv.get("adt") or "") and not rv["ops"]:
+                out.add(rv.get("variant"))
+            elif rv["k"] == "aggr" and sel and rv.get("variant") in ("Some", "Ok") and len(rv["ops"]) == 1:
+                sub_ = sub_variants(rv["ops"][0], depth - 1, seen)
+                if sub_ is None:
+                    return None
+                out |= sub_
+            elif rv["k"] == "aggr" and sel and rv.get("variant") in ("None",):
+                continue
+            elif rv["k"] == "use" and rv["op"].get("k") in ("copy", "move"):
+                o3 = rv["op"]
+                if sel:
+                    o3 = {"k": "copy", "pl": {"l": o3["pl"]["l"], "p": list(o3["pl"]["p"]) + sel}}
+                sub_ = sub_variants(o3, depth - 1, seen)
+                if sub_ is None:
+                    return None
+                out |= sub_
+            elif rv["k"] == "use" and rv["op"].get("k") == "const":
+                m = re.search(r"(Keyword|Operator)::(\w+)", str(rv["op"].get("v", "")))
+                if not m:
+                    return None
+                out.add(m.group(2))
             else:
                 return None
         return out
